@@ -719,6 +719,13 @@ impl<
                         let active_request =
                             self.create_active_request(details, chunk, INVALID_CONNECTION_ID);
                         return Ok(Some(active_request));
+                    } else {
+                        // the client is gone and nobody will answer: give the request back,
+                        // otherwise its chunk stays borrowed for ever
+                        self.shared_state
+                            .lock()
+                            .request_receiver
+                            .release_offset(&details, REQUEST_CHANNEL_ID);
                     }
                 }
                 None => return Ok(None),
@@ -824,6 +831,13 @@ impl<
                         }
 
                         return Ok(Some(active_request));
+                    } else {
+                        // the client is gone and nobody will answer: give the request back,
+                        // otherwise its chunk stays borrowed for ever
+                        self.shared_state
+                            .lock()
+                            .request_receiver
+                            .release_offset(&details, REQUEST_CHANNEL_ID);
                     }
                 }
                 None => return Ok(None),
